@@ -95,12 +95,23 @@ namespace
         static void eval(In<"x", TS<Int>> x, EvaluationClockView clock, Out<TS<Int>> out) { (void)clock.now(); (void)clock.cycle_time(); out.set(x.value() + 1); }
     };
     struct Add2 { static constexpr auto name = "c07_add2"; static void eval(In<"a", TS<Int>> a, In<"b", TS<Int>, InputActivity::Passive, InputValidity::Unchecked> b, Out<TS<Int>> out) { out.set(a.value() + (b.valid() ? b.value() : Int{0})); } };
+    // a long immediate chain: one evaluation per smallest time step, `limit` of them; the last count is kept in the run's global state
+    struct Pulse
+    {
+        static constexpr auto name = "c07_pulse";
+        static constexpr bool schedule_on_start = true;
+        static void start(State<Int> n) { n.set(Int{0}); }
+        static void eval(NodeScheduler sched, Scalar<"limit", Int> limit, State<Int> n, Out<TS<Int>> out) { n.set(n.get() + 1); out.set(n.get()); if (n.get() < limit.value()) sched.schedule(MIN_TD); }
+    };
+    struct LastGs { static constexpr auto name = "c07_last_gs"; static void eval(In<"x", TS<Int>> x, GlobalStateView gs) { gs.set("n", Value{Int{x.value()}}); } };
     struct FCounter { static constexpr auto name = "c07_g_counter"; static Port<TS<Int>> compose(Wiring &w, Port<TS<Int>> ts) { return wire<Counter>(w, ts); } };
     struct FTriple { static constexpr auto name = "c07_g_triple"; static Port<TS<Int>> compose(Wiring &w, Port<TS<Int>> ts) { return wire<Triple>(w, ts); } };
     struct FNested { static constexpr auto name = "c07_g_nested"; static Port<TS<Int>> compose(Wiring &w, Port<TS<Int>> ts) { return wire<Acc>(w, wire<Triple>(w, ts)); } };
 
     // ---- programs ------------------------------------------------------------------------------------------------------
     constexpr int N_PROGRAMS = 10;
+    constexpr int LONG_P = 11;                        // the long-chain program: only in the clock part (and its fresh-process reference)
+    constexpr long LONG_LIMIT[2] = {1100, 1500};
     char penc(int p) { return p < 10 ? static_cast<char>('0' + p) : static_cast<char>('A' + p - 10); }
     int pdec(char c) { return c >= 'A' ? 10 + (c - 'A') : c - '0'; }
     const char *INT_IN[2] = {"1,2,,4,5", "7,,7,1"};
@@ -148,6 +159,7 @@ namespace
             // whichever was built first in the process must not decide the other's behaviour
             case 8: { auto s2 = wire<stdlib::sum_>(w, wire<stdlib::to_window>(w, wire<IntSrc>(w, Str{h == 0 ? "1,2,3,4,5,6,7,8" : "2,,4,4,,1,1,1"}), MIN_TD * 10, MIN_TD * 5)).template as<TS<Int>>(); wire<LogInt>(w, s2, Str{"w5"}); break; }
             case 9: { auto s2 = wire<stdlib::sum_>(w, wire<stdlib::to_window>(w, wire<IntSrc>(w, Str{h == 0 ? "1,2,3,4,5,6,7,8" : "2,,4,4,,1,1,1"}), MIN_TD * 10, MIN_TD * 2)).template as<TS<Int>>(); wire<LogInt>(w, s2, Str{"w2"}); break; }
+            case LONG_P: { wire<LastGs>(w, wire<Pulse>(w, Int{LONG_LIMIT[h]})); break; }
             default: throw std::logic_error("no such program");
         }
     }
@@ -176,11 +188,11 @@ namespace
             if (gs.contains(key)) out += std::string{" | "} + key + "=" + Value{gs.get(key)}.to_string();
         return out;
     }
-    std::string run_builder(const GraphBuilder &gb_in)
+    std::string run_builder(const GraphBuilder &gb_in, long end_cycles = 12)
     {
         GraphBuilder gb = gb_in;
         GraphExecutorBuilder eb;
-        eb.graph_builder(std::move(gb)).start_time(MIN_ST).end_time(MIN_ST + TimeDelta{12});
+        eb.graph_builder(std::move(gb)).start_time(MIN_ST).end_time(MIN_ST + TimeDelta{end_cycles});
         auto ex = eb.make_executor();
         ex.view().run();
         return dump_state(ex.view().graph().global_state());
@@ -204,7 +216,7 @@ namespace
         }
         return in_graph + " || selected=" + dump_state(st.view());
     }
-    std::string solo(int p, int h) { return p == N_PROGRAMS ? run_ctx(h) : run_builder(build_program(p, h)); }
+    std::string solo(int p, int h) { return p == N_PROGRAMS ? run_ctx(h) : p == LONG_P ? run_builder(build_program(p, h), 4000) : run_builder(build_program(p, h)); }
 
     // ---- references: each (program, input) alone in a FRESH process -------------------------------------------------------
     std::map<std::pair<int, int>, std::string> &references() { static std::map<std::pair<int, int>, std::string> r; return r; }
@@ -391,6 +403,13 @@ namespace
         if (s.failure.rfind("replay divergence", 0) == 0) throw verif::HarnessError(s.failure + " (the harness does not control some source of nondeterminism)");
         if (!s.failure.empty()) { r.violation = s.failure; return r; }
         if (!world.error.empty()) { r.violation = world.error; return r; }
+        // absolute oracle for the long chain: simulation runs to the end of its schedule whatever the wall clock reads
+        for (std::size_t i = 0; i < progs.size(); ++i)
+            if (progs[i].first == LONG_P && world.traces[i].find("n=" + std::to_string(LONG_LIMIT[progs[i].second])) == std::string::npos)
+            {
+                r.violation = "the simulation run of the " + std::to_string(LONG_LIMIT[progs[i].second]) + "-cycle chain ended early: " + world.traces[i];
+                return r;
+            }
         for (std::size_t i = 0; i < progs.size(); ++i)
         {
             const std::string &want = reference(progs[i].first, progs[i].second);
@@ -425,7 +444,7 @@ namespace
     void warm_up()
     {
         std::vector<vs::ChoicePoint> trace;
-        for (int p = 0; p <= N_PROGRAMS; ++p) (void)execute_sched({{p, 0}, {p, 1}}, 0, {}, trace);
+        for (int p = 0; p <= LONG_P; ++p) (void)execute_sched({{p, 0}, {p, 1}}, 0, {}, trace);
     }
 }  // namespace
 
@@ -528,9 +547,9 @@ void verif_enumerate(verif::Ctx &ctx)
     ctx.max_samples = 200;
     if (ctx.sub == "clock")
     {
-        for (int p = 0; p <= N_PROGRAMS; ++p) for (int h = 0; h < 2; ++h)
+        for (int p = 0; p <= LONG_P; ++p) for (int h = 0; h < 2; ++h)
         {
-            const std::string desc = std::string{"clock:"} + penc(p) + std::to_string(h) + ";bound=" + std::to_string(th ? 5 : 3);
+            const std::string desc = std::string{"clock:"} + penc(p) + std::to_string(h) + ";bound=" + std::to_string(p == LONG_P ? 1 : th ? 5 : 3);   // the long chain reads the clock > 1000 times: one jump, every position
             SchedCase c = parse_sched(desc);
             vs::explore_config(ctx, desc, c.bound, th ? 30000000 : 3000000, [&](const std::vector<int> &pf, std::vector<vs::ChoicePoint> &t) { return execute_sched(c.progs, c.jump, pf, t); });
         }
